@@ -72,7 +72,7 @@ Check(e) ==
          /\ BGe(WN(e.fee), Fee(VSize(tx), WN(e.rate)))
     [] e.op = "fund" -> FundExpected(e) = FundLogged(e) /\ FundBuilt(e)
 EventOK == i > 0 => Check(Trace[i])
-Diag == i > 0 => PrintT(<<"DIAG", i, Trace[i].op,
+Diag == i > 0 => PrintT(<<"DIAG", i, <<Trace[i].op,
                   CASE Trace[i].op = "fund" -> <<FundExpected(Trace[i]), FundLogged(Trace[i]), FundBuilt(Trace[i])>>
                     [] Trace[i].op = "estimate" -> EstimatedWeight(PTx(FromHex(Trace[i].tx)).v, Trace[i].types)
                     [] Trace[i].op = "fee" -> Fee(Trace[i].vsize, WN(Trace[i].rate))
@@ -80,5 +80,5 @@ Diag == i > 0 => PrintT(<<"DIAG", i, Trace[i].op,
                     [] Trace[i].op = "btc" -> SatsFromBtc(Trace[i].neg, WN(Trace[i].digits), Trace[i].exp)
                     [] Trace[i].op = "rate" -> RateFromSatsPerVb(Trace[i].neg, WN(Trace[i].digits), Trace[i].exp)
                     [] Trace[i].op = "size" -> <<PTx(FromHex(Trace[i].hex)).ok, Len(FromHex(Trace[i].hex))>>
-                    [] OTHER -> "-">>)
+                    [] OTHER -> "-">>>>)
 =============================================================================
